@@ -396,8 +396,13 @@ def run_property(prop, tier='quick', explain=None):
                  reason='undecidable-shape')
     known = load_known()
     known_keys = {k['key']: k for k in known.get('known', [])}
-    os.makedirs(os.path.join(VERIF, 'out', 'violations'), exist_ok=True)
-    os.makedirs(os.path.join(VERIF, 'evidence'), exist_ok=True)
+    # evidence/ and out/violations/ describe /repo only: a run on a scratch variant (selfcheck mutants, seeded and benign
+    # variants; VERIF_REPO set) writes under out/variant/ so that it never overwrites the record of the real tree
+    variant = os.path.abspath(REPO) != '/repo'
+    ev_dir = os.path.join(VERIF, 'out', 'variant', 'evidence') if variant else os.path.join(VERIF, 'evidence')
+    vio_rel = os.path.join('out', 'variant', 'violations') if variant else os.path.join('out', 'violations')
+    os.makedirs(os.path.join(VERIF, vio_rel), exist_ok=True)
+    os.makedirs(ev_dir, exist_ok=True)
     viol = []
     known_hit = []
     for o in rep.obligations:
@@ -416,7 +421,7 @@ def run_property(prop, tier='quick', explain=None):
         print('KNOWN-FINDING: property=%s %s [%s]' % (prop, k['what'], k['key']))
     lines = []
     for o in viol:
-        path = os.path.join('out', 'violations', '%s-%s.json' % (prop, _san(o['key'])))
+        path = os.path.join(vio_rel, '%s-%s.json' % (prop, _san(o['key'])))
         with open(os.path.join(VERIF, path), 'w') as fh:
             json.dump({'property': prop, 'key': o['key'], 'rule': o['rule'], 'instance': o['instance'],
                        'reason': o['reason'], 'construct': o['construct'], 'explanation': o['why'],
@@ -463,7 +468,7 @@ def run_property(prop, tier='quick', explain=None):
         'violations': len(viol),
     }
     ev['coverage'].update(rep.extra)
-    with open(os.path.join(VERIF, 'evidence', prop + '.json'), 'w') as fh:
+    with open(os.path.join(ev_dir, prop + '.json'), 'w') as fh:
         json.dump(ev, fh, indent=1)
     sys.stderr.write('%s %s: %d obligations, %d discharged, %d violation(s), %d known finding(s), %.1fs\n'
                      % (prop, tier, n_obl, n_ok, len(viol), len(printed), time.time() - t0))
